@@ -19,7 +19,10 @@ RULE = (
     "parenthesisation), how the empty partials are made (constructor / zero() / copy() / constructor with the Label "
     "keys given in the opposite order) and the API (fill vs "
     "histogrammar.defs.increment; + vs combine vs accumulating intermediate results with +=).  Oracle: fill-all == reduce(partials); B+zero == B == zero+B; "
-    "P+Q == Q+P; (P+Q)+R == P+(Q+R); zero() has the document of a fresh tree.  Non-trivial: >= 2 chunks each holding "
+    "P+Q == Q+P; (P+Q)+R == P+(Q+R); zero() has the document of a fresh tree.  One case in six is a *vectorised* partition: a table "
+    "generated as C03 generates it (dict / record array / DataFrame / bare array, float64 / float32 / int64 / strided / read-only "
+    "columns, omitted / scalar / array weights), filled into one tree by one or two fill.numpy calls, against the sum in a generated "
+    "order (+ or +=) of fresh trees each filled by fill.numpy with one chunk.  Non-trivial: >= 2 chunks each holding "
     "a positively weighted row and the rows reach >= 2 different leaves; distinct by sha1 of the canonical case."
 )
 ASSUMPTIONS = [
@@ -56,7 +59,78 @@ def strategy(tier):
             "merge_api": draw(st.sampled_from(("+", "+", "combine", "+="))),
         }
 
-    return cases()
+    @st.composite
+    def vectorised(draw):
+        # the same law for partial results made by the vectorised fill: the table is C03's (every data representation,
+        # array flavour and weight mode it generates), the partition its cut points
+        from . import c03  # noqa: PLC0415
+
+        c3 = draw(c03.strategy(tier))
+        k = len(gen.split(list(range(len(c3["batch"]))), c3["cuts"]))
+        return {"mode": "vectorised", "c3": c3, "perm": list(draw(st.permutations(list(range(k))))), "merge_api": draw(st.sampled_from(("+", "+", "+="))),
+                # the whole table goes into its tree in one call, or streamed in two
+                "whole_calls": draw(st.sampled_from((1, 1, 2)))}
+
+    return st.one_of(*([cases()] * 5), vectorised())
+
+
+def check_vectorised(case):
+    """fill.numpy of the whole table == the sum, in any order, of fresh trees each filled by fill.numpy with one chunk."""
+    import numpy as np  # noqa: PLC0415
+
+    from . import c03  # noqa: PLC0415
+
+    c3 = case["c3"]
+    spec, rows = c3["spec"], c3["batch"]
+    n = len(rows)
+    wmode, w = c3["wmode"], c3["w"]
+    roww = [1.0] * n if wmode == "omitted" else [w] * n if wmode in ("scalar", "zero") else list(w)
+    labels = ["mode:vectorised", "rep:" + c3["rep"], "weights:" + wmode] + ["kind:" + k for k in kinds(spec)]
+    if any(isinstance(r.get("w"), float) and r["w"] in (float("inf"), float("-inf")) for r in rows):
+        # infinite cut weights: inf - inf and inf / inf differ legitimately between one pass and merged partial results
+        return {"nontrivial": False, "labels": labels + ["skipped:infinite-cut-weight"]}
+    ref = model.evaluate(spec, list(zip(rows, roww)))
+    pol = norm.Policy(exact=ref.exact, scale=1.0 + ref.notes["maxabs"])
+    bare = c3["rep"] == "bare"
+    flavour = c3.get("flavour", "f64")
+
+    def filled(idx, h=None):
+        h = h or build(spec, c03.bare_qhook if bare else None)
+        data = c03.make_data(c3["rep"], [rows[i] for i in idx], flavour)
+        if wmode == "array":
+            h.fill.numpy(data, np.array([roww[i] for i in idx], dtype=np.float64))
+        elif wmode == "omitted":
+            h.fill.numpy(data)
+        else:
+            h.fill.numpy(data, w)
+        return h
+
+    def ndoc(h):
+        return norm.strip_empty_types(norm.norm(h.toJson(), drop_zero=True))
+
+    if case.get("whole_calls", 1) == 2 and n >= 2:
+        whole = filled(list(range(n // 2, n)), filled(list(range(n // 2))))
+        labels.append("whole-in-two-calls")
+    else:
+        whole = filled(list(range(n)))
+    chunks = gen.split(list(range(n)), c3["cuts"])
+    partials = [filled(ch) for ch in chunks]
+    before = [ndoc(p_) for p_ in partials]
+    order = [i for i in case["perm"] if i < len(partials)]
+    acc = partials[order[0]]
+    if case["merge_api"] == "+=":
+        acc = acc.copy()
+    for i in order[1:]:
+        if case["merge_api"] == "+=":
+            acc += partials[i]
+        else:
+            acc = acc + partials[i]
+    d = norm.diff(ndoc(whole), ndoc(acc), pol, limit=12)
+    require(not d, "partition-vectorised", lambda: f"fill.numpy of the whole table ({c3['rep']}, weights {wmode}) differs from the sum of {len(partials)} partial results filled by fill.numpy (order {order}, {case['merge_api']}): {norm.fmt(d[:6])}")
+    for i, p_ in enumerate(partials):
+        require(norm.same(before[i], ndoc(p_), norm.BITEXACT), "operand-mutated", f"merging changed partial result {i}")
+    positive = [any(roww[i] == roww[i] and roww[i] > 0 for i in ch) for ch in chunks]
+    return {"nontrivial": sum(positive) >= 2, "labels": labels + [f"chunks:{len(chunks)}", "exact" if ref.exact else "inexact"]}
 
 
 def _fill(h, chunk, api):
@@ -83,6 +157,8 @@ def doc(h, names=True):
 
 def check(case):
     lib()
+    if case.get("mode") == "vectorised":
+        return check_vectorised(case)
     spec, stream = case["spec"], [(r, w) for r, w in case["stream"]]
     ref = model.evaluate(spec, stream)
     pol = norm.Policy(exact=ref.exact, scale=1.0 + ref.notes["maxabs"])
